@@ -17,6 +17,8 @@
    gives every occurrence of a label its dimension), the operands are well formed arrays,
    the output labels are distinct and occur in the inputs, and labels are codes >= 4 (the
    codes 0..3 are the separators , -> blank and dot of the string encoding).
+     (0b') C11_einsum1_implicit_output_correct, C11_einsum1_blanks_ignored   the implicit form
+                                   (no '->') and blanks, which the one-operand path accepts
      (0c) C11_tensordot_correct / C11_tensordot_int_correct   tensordot for every valid
                                    non-negative axes specification (pairs of axis lists, or an int)
    Further results kept because they are what the chain is made of and because they
@@ -76,6 +78,26 @@ Theorem C11_einsum1_correct_consistent : forall ta out a,
   einsum_single (eq1 ta out) a = Some (einsum_ref [ta] out [a]).
 Proof. exact br_einsum1_consistent. Qed.
 Print Assumptions C11_einsum1_correct_consistent.
+
+(* one-operand equations in the implicit form (no '->': the output is the labels occurring exactly
+   once, in increasing order -- numpy's rule) and with blanks anywhere in the string *)
+Theorem C11_einsum1_implicit_output_correct : forall (sz : nat -> nat) lhs t,
+  tshape t = map sz lhs -> wf_tensor t = true -> Forall (fun c => 4 <= c) lhs ->
+  einsum_single lhs t = Some (einsum_ref [lhs] (im_implicit_out lhs) [t]).
+Proof. exact im_einsum_single_implicit. Qed.
+Print Assumptions C11_einsum1_implicit_output_correct.
+
+Theorem C11_implicit_output_members : forall x lhs, In x (im_implicit_out lhs) <-> count x lhs = 1.
+Proof. exact im_implicit_out_in. Qed.
+Print Assumptions C11_implicit_output_members.
+Theorem C11_implicit_output_sorted : forall lhs, StronglySorted lt (im_implicit_out lhs).
+Proof. exact im_implicit_out_ssorted. Qed.
+Print Assumptions C11_implicit_output_sorted.
+
+Theorem C11_einsum1_blanks_ignored : forall e t,
+  einsum_single e t = einsum_single (remove_all SPACE e) t.
+Proof. exact im_einsum_single_blanks. Qed.
+Print Assumptions C11_einsum1_blanks_ignored.
 
 (* (0c) tensordot, every valid non-negative axes specification: pairs of duplicate-free, in-range,
    equally long axis lists whose dimensions match; and every integer `axes`.  `tensordot_ref` is
